@@ -251,15 +251,148 @@ Proof. intros H. unfold vset. apply upd_nth_same_val. exact H. Qed.
 Lemma nth_abs_slot s r a : nth_error (s_arrs s) r = Some (Some a) -> nth_error (abs_state s) r = Some (Some (vget (abs_state s) r)).
 Proof. intros H. rewrite (vget_abs cfg rank_pos s r a H), abs_nth, H. reflexivity. Qed.
 
+Lemma triple_at {T} (P : state -> Prop) (m : M T) Q QT s x s' : triple P m Q QT -> P s -> m s = Ok x s' -> Q x s'.
+Proof. intros Tr HP E. specialize (Tr s HP). rewrite E in Tr. exact Tr. Qed.
+
+Lemma dtor_abs s s' r a : Inv [] s -> nth_error (s_arrs s) r = Some (Some a) -> p_dtor cfg r s = Ok tt s' ->
+  abs_state s' = vset (abs_state s) r None.
+Proof.
+  intros I Hn H. apply p_dtor_inv in H. destruct H as (a' & G & A & Len & B).
+  assert (a' = a) by (rewrite (nth_slot _ _ _ Hn) in G; congruence). subst a'.
+  unfold vset. eapply abs_upd1; [apply nth_error_Some; congruence|exact A|reflexivity|].
+  intros q a0 Hq Hn0. eapply (frame_own cfg rank_pos); eauto.
+Qed.
+
+
+(* ---- two array objects exchange allocator and block: the two pool entries are exchanged ---- *)
+Lemma swap_store_inv r t s s' ar at_ : nth_error (s_arrs s) r = Some (Some ar) -> nth_error (s_arrs s) t = Some (Some at_) ->
+  swap_store r t s = Ok tt s' ->
+  s_arrs s' = upd_nth (upd_nth (s_arrs s) r (Some (mkarr (a_alloc at_) (a_base at_) (a_exts ar) (a_first ar)))) t
+                      (Some (mkarr (a_alloc ar) (a_base ar) (a_exts at_) (a_first at_))) /\ s_blocks s' = s_blocks s.
+Proof.
+  intros Hr Ht H. unfold swap_store in H. open_get H. open_get H.
+  assert (a = ar) by (unfold get_slot in Hg; rewrite Hr in Hg; congruence).
+  assert (a0 = at_) by (unfold get_slot in Hg0; rewrite Ht in Hg0; congruence). subst a a0.
+  unfold bind in H. rewrite !set_arr_eq in H. inv H. split; reflexivity.
+Qed.
+
+Lemma swap_store_abs r t s s' ar at_ : nth_error (s_arrs s) r = Some (Some ar) -> is0 ar ->
+  nth_error (s_arrs s) t = Some (Some at_) -> is0 at_ -> r <> t -> swap_store r t s = Ok tt s' ->
+  abs_state s' = vset (vset (abs_state s) r (Some (vget (abs_state s) t))) t (Some (vget (abs_state s) r)).
+Proof.
+  intros Hr Zr Ht Zt Hne H. destruct (swap_store_inv r t s s' ar at_ Hr Ht H) as [HA HB].
+  destruct Zr as [Er Fr]. destruct Zt as [Et Ft].
+  unfold vset. eapply abs_upd2; eauto.
+  - apply nth_error_Some. congruence.
+  - apply nth_error_Some. congruence.
+  - cbn [option_map]. f_equal. replace (a_exts ar) with (a_exts at_) by congruence. replace (a_first ar) with (a_first at_) by congruence.
+    rewrite (abs_arr_realloc cfg rank_pos).
+    rewrite (abs_arr_blocks_eq cfg rank_pos s s' at_ HB). symmetry. apply (vget_abs cfg rank_pos). exact Ht.
+  - cbn [option_map]. f_equal. replace (a_exts at_) with (a_exts ar) by congruence. replace (a_first at_) with (a_first ar) by congruence.
+    rewrite (abs_arr_realloc cfg rank_pos).
+    rewrite (abs_arr_blocks_eq cfg rank_pos s s' ar HB). symmetry. apply (vget_abs cfg rank_pos). exact Hr.
+  - intros q a _ _ _. apply (abs_arr_blocks_eq cfg rank_pos). exact HB.
+Qed.
+
+(* ---- copy / move assignment under a propagation trait: whichever way the allocators go, the value of the source arrives ---- *)
+Lemma assign0_abs prop mk tmp r t s s' ar at_ : (mk = SCell \/ mk = SMoveCell) -> Inv [] s -> wf_slots (s_arrs s) ->
+  length (s_arrs s) = NSLOTS ->
+  nth_error (s_arrs s) r = Some (Some ar) -> is0 ar -> nth_error (s_arrs s) t = Some (Some at_) -> is0 at_ -> r <> t ->
+  (tmp < NSLOTS)%nat -> nth_error (s_arrs s) tmp = Some None -> tmp <> r -> tmp <> t ->
+  assign0 cfg prop mk tmp r t s = Ok tt s' ->
+  abs_state s' = vset (abs_state s) r (Some (vget (abs_state s) t)).
+Proof.
+  intros Hmk I W Hlen Hr Zr Ht Zt Hne Htl Htmp Htr Htt H. unfold assign0 in H. open_get H. open_get H.
+  assert (a = ar) by (unfold get_slot in Hg; rewrite Hr in Hg; congruence).
+  assert (a0 = at_) by (unfold get_slot in Hg0; rewrite Ht in Hg0; congruence). subst a a0. clear Hg Hg0.
+  destruct prop; [|eapply sq_assign_from_arr; eauto].
+  destruct (alloc_eq cfg (a_alloc ar) (a_alloc at_)) eqn:Eal.
+  - (* the allocator is replaced, the block stays *)
+    unfold bind at 1 in H. destruct (p_set_alloc r (a_alloc at_) s) as [[] s1|?|?] eqn:E1; try discriminate.
+    pose proof E1 as E1'. apply p_set_alloc_inv in E1'. destruct E1' as (ar0 & G0 & HA1 & HB1).
+    assert (ar0 = ar) by (unfold get_slot in G0; rewrite Hr in G0; congruence). subst ar0.
+    set (ar1 := mkarr (a_alloc at_) (a_base ar) (a_exts ar) (a_first ar)) in *.
+    assert (Lr : (r < length (s_arrs s))%nat) by (apply nth_error_Some; congruence).
+    assert (I1 : Inv [] s1).
+    { unfold p_set_alloc in E1. open_get E1.
+      assert (a = ar) by (unfold get_slot in Hg; rewrite Hr in Hg; congruence). subst a.
+      rewrite set_arr_eq in E1. inv E1. apply (Inv_retag cfg rank_pos [] s r ar ar1); auto. }
+    assert (Abs1 : abs_state s1 = abs_state s).
+    { rewrite (abs_upd1 s s1 r (Some ar1) (Some (vget (abs_state s) r)) Lr HA1).
+      - apply upd_nth_same_val. eapply nth_abs_slot; eauto.
+      - cbn [option_map]. f_equal. unfold ar1. rewrite (abs_arr_realloc cfg rank_pos), (abs_arr_blocks_eq cfg rank_pos s s1 ar HB1).
+        symmetry. apply (vget_abs cfg rank_pos). exact Hr.
+      - intros q a _ _. apply (abs_arr_blocks_eq cfg rank_pos). exact HB1. }
+    assert (H1r : nth_error (s_arrs s1) r = Some (Some ar1)) by (rewrite HA1; apply nth_upd_same; auto).
+    assert (H1t : nth_error (s_arrs s1) t = Some (Some at_)) by (rewrite HA1, nth_upd_other; auto).
+    change (assign_all cfg ar (cells_of mk at_)) with (assign_all cfg ar1 (one_cell at_ mk)) in H.
+    rewrite <- Abs1. eapply sq_assign_from_arr; eauto.
+  - (* a new block under the source's allocator; the old one leaves with the temporary *)
+    set (A := s_arrs s) in *.
+    destruct (arr0_vals s r ar I Hr Zr) as (br & cr & Hbr & Hvr & _ & Gr).
+    destruct (arr0_vals s t at_ I Ht Zt) as (bt & ct & Hbt & Hvt & _ & Gt).
+    assert (Ltmp : (tmp < length A)%nat) by (rewrite Hlen; exact Htl).
+    binv H p s0 E1. unfold bind at 1 in H. destruct (install tmp (a_alloc at_) p X0 s0) as [[] s1|?|?] eqn:E2; try discriminate.
+    assert (Ec : (p <- p_build cfg (a_alloc at_) (bnumel X0) 0 (one_cell at_ mk) ;; install tmp (a_alloc at_) p X0) s = Ok tt s1).
+    { unfold bind. unfold one_cell. rewrite E1. exact E2. }
+    assert (Fs : Forall (src_in A) (one_cell at_ mk)) by (unfold one_cell; eapply cells_of_src_in; eauto).
+    assert (Hl1 : length (one_cell at_ mk) = 1%nat) by (rewrite (one_cell_eq at_ mk bt Zt Hbt); reflexivity).
+    pose proof (triple_at _ _ _ _ s tt s1
+                  (build_install_spec cfg rank_pos [] tmp (a_alloc at_) X0 0 (one_cell at_ mk) A
+                     Htl ltac:(unfold slotA; rewrite Htmp; exact Logic.I) Fs (fun _ => Hl1))
+                  (conj I eq_refl) Ec) as (I1 & p1 & HA1).
+    set (tarr := with_bx (a_alloc at_) p1 X0) in *.
+    assert (Ztm : is0 tarr) by (split; reflexivity).
+    assert (H1r : nth_error (s_arrs s1) r = Some (Some ar)) by (rewrite HA1, nth_upd_other; auto).
+    assert (H1m : nth_error (s_arrs s1) tmp = Some (Some tarr)) by (rewrite HA1; apply nth_upd_same; auto).
+    assert (Abs1 : abs_state s1 = upd_nth (abs_state s) tmp (Some (X0, [ct]))).
+    { rewrite (one_cell_eq at_ mk bt Zt Hbt) in Ec. rewrite (ctor0_sq s s1 tmp (a_alloc at_) [mk bt 0%nat] I Ltmp); auto.
+      - cbn [map]. f_equal. f_equal. f_equal. destruct Hmk as [-> | ->]; cbn [src_val]; rewrite Hvt; reflexivity.
+      - eapply (srcs_old_cell s t at_ bt 0 I Ht Hbt); auto. rewrite (nel0 _ Zt). lia. }
+    unfold bind at 1 in H. destruct (swap_store r tmp s1) as [[] s2|?|?] eqn:E3; try discriminate.
+    pose proof (swap_store_abs r tmp s1 s2 ar tarr H1r Zr H1m Ztm ltac:(auto) E3) as Abs2.
+    pose proof (triple_at _ _ _ _ s1 tt s2 (swap_store_ok cfg (s_arrs s1) r tmp ar tarr H1r Zr H1m Ztm ltac:(auto))
+                  (conj I1 eq_refl) E3) as (I2 & HA2).
+    assert (H2m : nth_error (s_arrs s2) tmp = Some (Some (mkarr (a_alloc ar) (a_base ar) [] []))).
+    { rewrite HA2. apply nth_upd_same. rewrite upd_nth_length, HA1, upd_nth_length. auto. }
+    rewrite (dtor_abs s2 s' tmp _ I2 H2m H), Abs2, Abs1.
+    set (P := abs_state s) in *.
+    assert (LP : length P = NSLOTS) by (unfold P; rewrite abs_state_length; exact Hlen).
+    assert (PT : nth_error P tmp = Some None) by (unfold P; rewrite abs_nth; fold A; rewrite Htmp; reflexivity).
+    assert (Lr : (r < length P)%nat) by (unfold P; eapply slot_lt; eauto).
+    assert (LT : (tmp < length P)%nat) by (rewrite LP; auto).
+    unfold vset, vget. unfold vget in Gt.
+    apply list_ext; [rewrite !upd_nth_length; auto|]. intros q.
+    repeat (rewrite nth_upd_gen by (rewrite ?upd_nth_length; auto)).
+    destruct (Nat.eqb_spec tmp q) as [<-|HqT].
+    + destruct (Nat.eqb_spec r tmp); [congruence|]. auto.
+    + destruct (Nat.eqb_spec r q) as [<-|Hqr]; auto.
+      f_equal. f_equal. rewrite Nat.eqb_refl.
+      destruct (nth_error P t) as [[vt|]|] eqn:Et; cbn in *; subst; auto.
+Qed.
+
+Lemma assign0_user_abs prop mk r t s s' ar at_ : (mk = SCell \/ mk = SMoveCell) -> Good s ->
+  live0 (s_arrs s) r ar -> live0 (s_arrs s) t at_ -> r <> t ->
+  assign0 cfg prop mk TMP1 r t s = Ok tt s' -> abs_state s' = vset (abs_state s) r (Some (vget (abs_state s) t)).
+Proof.
+  intros Hmk (I & W & T) Dr Dt Hne H.
+  destruct (live0_nth _ _ _ Dr) as [Nr Zr]. destruct (live0_nth _ _ _ Dt) as [Nt Zt].
+  destruct (tmp_ne_user cfg rank_pos r (proj1 (proj1 Dr))) as (N1 & _ & _).
+  destruct (tmp_ne_user cfg rank_pos t (proj1 (proj1 Dt))) as (M1 & _ & _).
+  pose proof T as (T1 & _ & _).
+  eapply (assign0_abs prop mk TMP1 r t s s' ar at_); eauto.
+  - eapply len_A; eauto.
+  - unfold NSLOTS, TMP1. lia.
+Qed.
+
 Lemma sq_ZAssignCopy r t s s' : Good s -> dom_op0 (s_arrs s) (ZAssignCopy r t) ->
   step0 cfg (ZAssignCopy r t) s = Ok tt s' -> abs_state s' = vstep0 cfg (ZAssignCopy r t) (abs_state s).
 Proof.
-  intros (I & W & T) ((ar & Dr) & (at_ & Dt)) H. cbn [step0 vstep0] in *.
-  destruct (live0_nth _ _ _ Dr) as [Nr Zr]. destruct (live0_nth _ _ _ Dt) as [Nt Zt].
+  intros G ((ar & Dr) & (at_ & Dt)) H. cbn [step0 vstep0] in *.
+  destruct (live0_nth _ _ _ Dr) as [Nr Zr].
   destruct (Nat.eqb_spec r t) as [->|Hne].
   - open_get H. inv H. symmetry. apply vset_self. eapply nth_abs_slot; eauto.
-  - open_get H. open_get H. rewrite (get_live0 _ _ _ _ Hg Dr), (get_live0 _ _ _ _ Hg0 Dt) in *.
-    eapply sq_assign_from_arr with (mk := SCell); eauto.
+  - eapply assign0_user_abs with (mk := SCell); eauto.
 Qed.
 
 Lemma upd_nth_one (c v : Z) : upd_nth [c] 0 v = [v].
@@ -268,12 +401,11 @@ Proof. reflexivity. Qed.
 Lemma sq_ZAssignMove r t s s' : Good s -> dom_op0 (s_arrs s) (ZAssignMove r t) ->
   step0 cfg (ZAssignMove r t) s = Ok tt s' -> abs_state s' = vstep0 cfg (ZAssignMove r t) (abs_state s).
 Proof.
-  intros (I & W & T) ((ar & Dr) & (at_ & Dt)) H. cbn [step0 vstep0] in *.
-  destruct (live0_nth _ _ _ Dr) as [Nr Zr]. destruct (live0_nth _ _ _ Dt) as [Nt Zt].
-  open_get H. open_get H. rewrite (get_live0 _ _ _ _ Hg Dr), (get_live0 _ _ _ _ Hg0 Dt) in *.
+  intros G ((ar & Dr) & (at_ & Dt)) H. cbn [step0 vstep0] in *.
+  destruct (live0_nth _ _ _ Dr) as [Nr Zr].
   destruct (Nat.eqb_spec r t) as [->|Hne].
-  - inv H. symmetry. apply vset_self. eapply nth_abs_slot; eauto.
-  - eapply sq_assign_from_arr with (mk := SMoveCell); eauto.
+  - open_get H. inv H. symmetry. apply vset_self. eapply nth_abs_slot; eauto.
+  - eapply assign0_user_abs with (mk := SMoveCell); eauto.
 Qed.
 
 Lemma sq_ZAssignElem r v s s' : Good s -> dom_op0 (s_arrs s) (ZAssignElem r v) ->
@@ -419,6 +551,8 @@ Proof.
   destruct (live0_nth _ _ _ Dr) as [Nr Zr]. destruct (live0_nth _ _ _ Dt) as [Nt Zt].
   open_get H. open_get H. rewrite (get_live0 _ _ _ _ Hg Dr), (get_live0 _ _ _ _ Hg0 Dt) in *.
   destruct (Nat.eqb_spec r t) as [->|_]; [contradiction|].
+  destruct (c_pocs cfg).
+  { eapply swap_store_abs; eauto. }
   destruct (arr0_vals s r ar I Nr Zr) as (b & cr & Hb & Hv & _ & Gr).
   destruct (arr0_vals s t at_ I Nt Zt) as (b' & ct & Hb' & Hv' & _ & Gt).
   unfold bind at 1 in H. unfold base_blk at 1 in H. rewrite Hb in H. cbn [ret] in H.
@@ -431,24 +565,12 @@ Qed.
 
 
 (* ---- using std::swap; swap(a, b) ---- *)
-Lemma triple_at {T} (P : state -> Prop) (m : M T) Q QT s x s' : triple P m Q QT -> P s -> m s = Ok x s' -> Q x s'.
-Proof. intros Tr HP E. specialize (Tr s HP). rewrite E in Tr. exact Tr. Qed.
-
-Lemma dtor_abs s s' r a : Inv [] s -> nth_error (s_arrs s) r = Some (Some a) -> p_dtor cfg r s = Ok tt s' ->
-  abs_state s' = vset (abs_state s) r None.
-Proof.
-  intros I Hn H. apply p_dtor_inv in H. destruct H as (a' & G & A & Len & B).
-  assert (a' = a) by (rewrite (nth_slot _ _ _ Hn) in G; congruence). subst a'.
-  unfold vset. eapply abs_upd1; [apply nth_error_Some; congruence|exact A|reflexivity|].
-  intros q a0 Hq Hn0. eapply (frame_own cfg rank_pos); eauto.
-Qed.
-
 Lemma sq_ZSwap r t s s' : Good s -> dom_op0 (s_arrs s) (ZSwap r t) ->
   step0 cfg (ZSwap r t) s = Ok tt s' -> abs_state s' = vstep0 cfg (ZSwap r t) (abs_state s).
 Proof.
   intros (I & W & T) (Hne & (ar & Dr) & (at_ & Dt)) H. cbn [step0 vstep0] in *.
   destruct (live0_nth _ _ _ Dr) as [Nr Zr]. destruct (live0_nth _ _ _ Dt) as [Nt Zt].
-  open_get H. open_get H. rewrite (get_live0 _ _ _ _ Hg Dr), (get_live0 _ _ _ _ Hg0 Dt) in *. clear Hg Hg0 a a0.
+  open_get H. open_get H. pose proof (get_live0 _ _ _ _ Hg Dr). pose proof (get_live0 _ _ _ _ Hg0 Dt). subst a a0. clear Hg Hg0.
   destruct (Nat.eqb_spec r t) as [->|_]; [contradiction|].
   set (A := s_arrs s) in *.
   assert (Hlen : length A = NSLOTS) by (eapply len_A; eauto).
@@ -480,22 +602,38 @@ Proof.
   { rewrite (one_cell_eq ar SMoveCell br Zr Hbr) in Ec. rewrite (ctor0_sq s s1 TMP1 (a_alloc ar) [SMoveCell br 0%nat] I L1); auto.
     - cbn [map src_val]. rewrite Hvr. reflexivity.
     - eapply (srcs_old_cell s r ar br 0 I Nr Hbr); auto. rewrite (nel0 _ Zr). lia. }
+  pose proof T as (_ & T2' & _).
+  destruct (tmp_ne_user cfg rank_pos r (proj1 (proj1 Dr))) as (_ & N2 & _).
+  destruct (tmp_ne_user cfg rank_pos t (proj1 (proj1 Dt))) as (_ & M2 & _).
+  assert (L1' : length (s_arrs s1) = NSLOTS) by (rewrite HA1, upd_nth_length; auto).
+  assert (H1f : nth_error (s_arrs s1) TMP2 = Some None).
+  { rewrite HA1, nth_upd_other; [exact T2|unfold TMP1, TMP2; lia]. }
+  assert (LT2 : (TMP2 < NSLOTS)%nat) by (unfold NSLOTS, TMP2; lia).
+  assert (NT12 : TMP2 <> TMP1) by (unfold TMP1, TMP2; lia).
   (* a = std::move(b) *)
-  unfold bind at 1 in H. destruct (assign_all cfg ar (one_cell at_ SMoveCell) s1) as [[] s2|?|?] eqn:E3; try discriminate.
-  pose proof (triple_at _ _ _ _ s1 tt s2 (assign0_from_arr_ok cfg rank_pos (s_arrs s1) r ar t at_ SMoveCell W1 H1r Zr H1t Zt (or_intror eq_refl))
-                (conj I1 eq_refl) E3) as (I2 & HA2).
-  pose proof (sq_assign_from_arr SMoveCell s1 s2 r ar t at_ (or_intror eq_refl) I1 H1r Zr H1t Zt E3) as Abs2.
+  unfold bind at 1 in H. destruct (assign0 cfg (c_pocma cfg) SMoveCell TMP2 r t s1) as [[] s2|?|?] eqn:E3; try discriminate.
+  pose proof (triple_at _ _ _ _ s1 tt s2
+                (assign0_spec cfg rank_pos (s_arrs s1) (c_pocma cfg) SMoveCell TMP2 r t ar at_ W1 L1' (or_intror eq_refl) H1r Zr H1t Zt
+                   ltac:(auto) LT2 H1f ltac:(auto) ltac:(auto))
+                (conj I1 eq_refl) E3) as (ar' & (Zr' & _) & I2 & HA2).
+  pose proof (assign0_abs (c_pocma cfg) SMoveCell TMP2 r t s1 s2 ar at_ (or_intror eq_refl) I1 W1 L1' H1r Zr H1t Zt
+                ltac:(auto) LT2 H1f ltac:(auto) ltac:(auto) E3) as Abs2.
   (* b = std::move(tmp) *)
-  open_get H. assert (a = tarr) by (unfold get_slot in Hg; rewrite HA2, H1m in Hg; congruence). subst a.
-  unfold bind at 1 in H. destruct (assign_all cfg at_ (one_cell tarr SMoveCell) s2) as [[] s3|?|?] eqn:E5; try discriminate.
-  assert (W2 : wf_slots (s_arrs s2)) by (rewrite HA2; exact W1).
-  rewrite <- HA2 in H1r, H1t, H1m.
-  pose proof (triple_at _ _ _ _ s2 tt s3 (assign0_from_arr_ok cfg rank_pos (s_arrs s2) t at_ TMP1 tarr SMoveCell W2 H1t Zt H1m Zt' (or_intror eq_refl))
-                (conj I2 eq_refl) E5) as (I3 & HA3).
-  pose proof (sq_assign_from_arr SMoveCell s2 s3 t at_ TMP1 tarr (or_intror eq_refl) I2 H1t Zt H1m Zt' E5) as Abs3.
+  assert (W2 : wf_slots (s_arrs s2)) by (rewrite HA2; apply wf_slots_upd; auto; intros a E; inv E; apply wf_is0; auto).
+  assert (L2 : length (s_arrs s2) = NSLOTS) by (rewrite HA2, upd_nth_length; auto).
+  assert (H2t : nth_error (s_arrs s2) t = Some (Some at_)) by (rewrite HA2, nth_upd_other; auto).
+  assert (H2m : nth_error (s_arrs s2) TMP1 = Some (Some tarr)) by (rewrite HA2, nth_upd_other; auto).
+  assert (H2f : nth_error (s_arrs s2) TMP2 = Some None) by (rewrite HA2, nth_upd_other; auto).
+  unfold bind at 1 in H. destruct (assign0 cfg (c_pocma cfg) SMoveCell TMP2 t TMP1 s2) as [[] s3|?|?] eqn:E5; try discriminate.
+  pose proof (triple_at _ _ _ _ s2 tt s3
+                (assign0_spec cfg rank_pos (s_arrs s2) (c_pocma cfg) SMoveCell TMP2 t TMP1 at_ tarr W2 L2 (or_intror eq_refl) H2t Zt H2m Zt'
+                   ltac:(auto) LT2 H2f ltac:(auto) NT12)
+                (conj I2 eq_refl) E5) as (at' & (Zt'' & _) & I3 & HA3).
+  pose proof (assign0_abs (c_pocma cfg) SMoveCell TMP2 t TMP1 s2 s3 at_ tarr (or_intror eq_refl) I2 W2 L2 H2t Zt H2m Zt'
+                ltac:(auto) LT2 H2f ltac:(auto) NT12 E5) as Abs3.
   (* ~tmp *)
-  rewrite <- HA3 in H1m.
-  rewrite (dtor_abs s3 s' TMP1 tarr I3 H1m H), Abs3, Abs2, Abs1.
+  assert (H3m : nth_error (s_arrs s3) TMP1 = Some (Some tarr)) by (rewrite HA3, nth_upd_other; auto).
+  rewrite (dtor_abs s3 s' TMP1 tarr I3 H3m H), Abs3, Abs2, Abs1.
   (* list bookkeeping: the pool entry of the temporary comes and goes *)
   set (P := abs_state s) in *.
   assert (LP : length P = NSLOTS) by (unfold P; rewrite abs_state_length; exact Hlen).
